@@ -230,6 +230,7 @@ def run(F, R, ctx):
     _run(F, R, ctx)
     transitive_rescue_rule(F, R)
     later_assignment_rule(F, R)
+    rollback_covers_slot_lists_rule(F, R)
 
 
 def _run(F, R, ctx):
@@ -402,3 +403,45 @@ def later_assignment_rule(F, R):
                "included (line %s): a later evaluation that assigns the global is not seen by the code compiled earlier — "
                "one evaluation `(define x 10) (define (f) (+ x 1))`, then `(set! x 20)`, then `(f)` answers 11" % fn.blocks[bnd].get("line"),
                fn.loc(fn.blocks[bnd].get("line")), sample=True)
+
+
+def rollback_covers_slot_lists_rule(F, R):
+    R.rule("C06.L", "a rolled-back program leaves no slot number behind: every list of FreeList into which SymbolMap::add (in its "
+                    "live code: branches on compile-time constants resolved) records a slot it hands out — directly or through a "
+                    "FreeList method — is also adjusted by SymbolMap::roll_back. A slot number left in a candidate list after its "
+                    "name was rolled back is given to the next definition, and the recycler later frees that definition's slot: "
+                    "an unrelated later define takes it over")
+    add = F.one(r"^steel::compiler::map::\{impl SymbolMap\}::add$")
+    rb = F.one(r"^steel::compiler::map::\{impl SymbolMap\}::roll_back$")
+    live = shared.live_blocks(add)
+
+    def pushed_fields(fn, blocks=None):
+        out = set()
+        for i, b in fn.calls():
+            if blocks is not None and i not in blocks:
+                continue
+            if re.search(r"Vec<T,A>\}::(push|insert|extend\w*)$", b["callee"]) and b["args"]:
+                for s_ in lib.alias_sources(fn, b["args"][0]):
+                    m = re.search(r"\.(\w+)$", s_)
+                    if m and m.group(1) in FIELDS:
+                        out.add(m.group(1))
+        return out
+    fl = [a_ for a_ in F.adts_short.get("FreeList", []) if a_["name"].startswith("steel::compiler::map::")]
+    if len(fl) != 1:
+        raise CheckError("anchor lost: compiler::map::FreeList")
+    fl = fl[0]
+    FIELDS = {f["name"] for v in fl["variants"] for f in v["fields"] if re.search(r"^Vec<usize", f["ty"])}
+    rec = pushed_fields(add, live)
+    for i, b in add.calls():
+        if i in live and re.search(r"\{impl FreeList\}::", b["callee"]) and b["callee"] in F.fns:
+            rec |= pushed_fields(F.fns[b["callee"]])
+    R.inst("C06.L", "slot lists SymbolMap::add records into (derived)", bool(rec),
+           "SymbolMap::add no longer records slots in any FreeList list (anchor changed)", add.loc(),
+           sample={"lists": sorted(rec), "candidates": sorted(FIELDS)}, nontrivial=False)
+    touched = {e[2] for _, e in lib.deep_events(F, rb, "fld", depth=2) if e[1] == "FreeList" and (e[3][0] in "wm" or "m" in e[3])}
+    for fld in sorted(rec):
+        R.inst("C06.L", "SymbolMap::roll_back adjusts FreeList.%s" % fld, fld in touched,
+               "SymbolMap::add records the slots it hands out in FreeList.%s, but SymbolMap::roll_back never touches that list: "
+               "after a failed build (a form with a liftable lambda and a free identifier) the list keeps slot numbers that the "
+               "next definitions receive; at the next recycling those live definitions are voided and their slots handed to "
+               "unrelated defines" % fld, rb.loc(), sample=True)
